@@ -371,7 +371,15 @@ func (p *Parser) parseOperation(tokens []tokenizer.Token, validateOnly bool) (se
 	}
 	if negated && err == nil {
 		if !validateOnly {
-			sel = &NotNode{sel}
+			if inner, ok := sel.(*NotNode); ok {
+				// Negation of a parenthesised expression that is itself a negation, e.g.
+				// "!(!has(a))".  Collapse the double negation, as we do for a leading "!!",
+				// so that the canonical text ("!!has(a)" otherwise) parses back to the same
+				// selector.
+				sel = inner.Operand
+			} else {
+				sel = &NotNode{sel}
+			}
 		}
 	}
 	return
